@@ -127,7 +127,7 @@ func c20Run(x *core.Ctx) {
 		case 3:
 			items := tsys.Schema(r, &tsys.GenOpts{Descs: i%2 == 0, Hostile: i%4 == 0, Extensions: true, ExtOnly: i%10 >= 5, Small: true})
 			all := append(append([]tsys.Fault{}, tsys.Faults...), tsys.ExtraFaults...)
-			if out, _, ok := all[r.Intn(len(all))].Inject(r, tsys.CloneItems(items)); ok {
+			if out, _, ok := all[r.Intn(len(all))].Inject(r, tsys.CloneItems(items)); ok && i%30 != 9 {
 				items = out
 			}
 			if i%20 == 3 {
@@ -151,6 +151,24 @@ func c20Run(x *core.Ctx) {
 			for j := 0; j < k; j++ {
 				lo, hi := j*len(items)/k, (j+1)*len(items)/k
 				kv = append(kv, fmt.Sprintf("src%d", j), rn.RenderSDoc(&model.SDoc{Items: items[lo:hi]}))
+			}
+			if i%30 == 9 {
+				// a schema extension that carries a directive it may not carry (undefined, not for this place, unknown or
+				// missing argument), in a file of its own
+				ext := r.Pick("extend schema @nope", "extend schema @skip(if: true)", "extend schema @deprecated(because: 1)", "extend schema @include", "extend schema @specifiedBy(url: 1) { query: Query }",
+					"extend schema @__mine", "schema @nope { query: Query }", "extend schema { query: Nope }", "extend schema @deprecated @nope { mutation: Query }")
+				kv[1] = fmt.Sprint(k + 1)
+				kv = append(kv, fmt.Sprintf("src%d", k), r.Pick("", "\n\n", "# c\n")+ext)
+				x.Count("faulty_schema_extension_loads")
+			}
+			if i%30 == 21 && k >= 2 {
+				// two or three of the sources do not parse: the one error that comes back is an error like the others
+				for j := 0; j < k; j++ {
+					if j < 2 || r.Bool() {
+						kv[3+2*j] += r.Pick(" }", " \"unterminated", " type", " ~", " \"\\q\"", " extend")
+					}
+				}
+				x.Count("loads_with_several_broken_sources")
 			}
 			c := core.NewCase("load", kv...)
 			x.Do(c, func() { c20Check(x, c) })
@@ -634,6 +652,40 @@ func c20Check(x *core.Ctx, c *core.Case) {
 			}
 			if serializeErrs(errs2) != serializeErrs(errs) {
 				x.Violate("validate-after-ReplaceRule:differs", serializeErrs(errs2), serializeErrs(errs))
+			}
+			// a rule is removed and the name of one registered after it is registered once more with a function of the
+			// caller's: what that function reports carries that name, what the others report carries theirs
+			if ri+1 < len(c18Standard) {
+				later := c18Standard[ri+1+int(core.HashString(dsrc)%uint64(len(c18Standard)-ri-1))]
+				validator.RemoveRule(rule.Name)
+				validator.AddRule(later.Name, func(o *validator.Events, addError validator.AddErrFunc) {
+					o.OnOperation(func(w *validator.Walker, op *ast.OperationDefinition) {
+						addError(validator.Message("reported by the caller's rule"), validator.At(op.Position))
+					})
+				})
+				doc4, _ := parser.ParseQuery(&ast.Source{Name: reqName, Input: dsrc})
+				errs4 := validator.Validate(schema, doc4)
+				for _, r := range c18Standard {
+					validator.RemoveRule(r.Name)
+				}
+				for _, r := range c18Standard {
+					validator.AddRule(r.Name, r.RuleFunc)
+				}
+				x.Count("add_rule_sequences")
+				byRule := map[string]string{}
+				for _, e := range errs {
+					byRule[e.Message+locStr(e)] = e.Rule
+				}
+				for _, e := range errs4 {
+					c20Error(x, "validate-after-AddRule", e, []string{reqName}, true)
+					if e.Message == "reported by the caller's rule" {
+						if e.Rule != later.Name {
+							x.Violate("validate-after-AddRule:wrong-rule-name", e.Rule, later.Name)
+						}
+					} else if was, ok := byRule[e.Message+locStr(e)]; ok && was != e.Rule {
+						x.Violate("validate-after-AddRule:wrong-rule-name", e.Rule, was)
+					}
+				}
 			}
 		}
 	case "variables":
